@@ -156,6 +156,23 @@ inline randomx::InstructionByteCode* bytecode_of(Engine& e) {
 	return hard ? static_cast<InterpretedVm<Alloc, false>*>(e.vm)->bytecode : static_cast<InterpretedVm<Alloc, true>*>(e.vm)->bytecode;
 }
 
+// Decodes the x86 code the JIT emitted for a CBRANCH in slot s: add r64,imm (imm32 or sign-extended imm8 form), test r64,imm32,
+// jz (rel32 or rel8 form).  Returns false if the bytes are not one of these forms (then the caller skips the comparison and
+// counts it - an unknown but possibly correct encoding must not raise an alarm).
+struct X86Branch { int64_t add_imm; uint32_t test_mask; int32_t target_off; int reg; };
+inline bool decode_x86_cbranch(randomx::JitCompilerX86* jc, int s, int32_t end_off, X86Branch& out) {
+	const uint8_t* code = jc->getCode(); int32_t off = jc->instructionOffsets[s]; const uint8_t* c = code + off; int32_t len = end_off - off; int k = 0;
+	if (len < 12) return false;
+	if (c[0] == 0x49 && c[1] == 0x81 && (c[2] & 0xF8) == 0xC0) { int32_t v; memcpy(&v, c + 3, 4); out.add_imm = v; out.reg = c[2] & 7; k = 7; }
+	else if (c[0] == 0x49 && c[1] == 0x83 && (c[2] & 0xF8) == 0xC0) { out.add_imm = (int8_t)c[3]; out.reg = c[2] & 7; k = 4; }
+	else return false;
+	if (!(c[k] == 0x49 && c[k + 1] == 0xF7 && c[k + 2] == (0xC0 | out.reg))) return false;
+	memcpy(&out.test_mask, c + k + 3, 4); k += 7;
+	if (c[k] == 0x0F && c[k + 1] == 0x84 && k + 6 == len) { int32_t rel; memcpy(&rel, c + k + 2, 4); out.target_off = end_off + rel; return true; }
+	if (c[k] == 0x74 && k + 2 == len) { out.target_off = end_off + (int8_t)c[k + 1]; return true; }
+	return false;
+}
+
 // ------------------------------------------------------------------ instruction words and program buffers
 struct Word {
 	uint8_t op, dst, src, mod; uint32_t imm;
